@@ -572,6 +572,19 @@ def r16_2(ck):
     cm = ck.fn('Composite.merge', 'core.composer')
     _overrides(ck, ci, 'R16.2', 'self.processes', 'self.steps')
     _overrides(ck, cm, 'R16.2', 'self.processes', 'self.steps')
+    # ... on every normal path: a merge that brings no new override still
+    # puts new processes under the standing ones
+    for f in (ci, cm, cg, pg):
+        cfg = cfg_of(f.node)
+        ov = {cfg.node(c) for c in A.calls_in(f.node, '_override_schemas')}
+        ov.discard(None)
+        ok = bool(ov) and cfg.must_pass(cfg.entry, cfg.exit, ov)
+        ck.require(ok, 'R16.2', f, f.node.name,
+                   'the schema overrides are applied on every path',
+                   '%s can return without applying the schema overrides '
+                   '(_override_schemas is skipped on some path): a process '
+                   'merged in under a name that already carries an override '
+                   'runs without it' % f.qual)
     # each embedded part is exactly what its hook returned
     for f in (cg, pg):
         rets = [r for r in ast.walk(f.node) if isinstance(r, ast.Return)]
